@@ -6,12 +6,18 @@ import re
 import vlib
 
 RULE = ("one case = one complete schedule of the real code under the cooperative scheduler: the scheduler "
-        "starts actors, releases them from the verif yield points (after LoadOrStore in the follower branch, "
-        "before close(Done)/close(loaded)), answers their gated work (ok / upstream failure / own-context failure) "
+        "starts actors (each goroutine wrapped in a recover = the request boundary), releases them from the verif "
+        "yield points (after LoadOrStore in the follower branch, before close(Done)/close(loaded)), answers their gated "
+        "work (ok / upstream failure / own-context failure / PANIC on the actor's goroutine), answers the Write on each "
+        "actor's own client writer, which parks inside the call (ok / the writer's own error / panic; inbound modes), "
         "and cancels contexts. Request sets: two same-key queries with every pair of planned answers and at most "
-        "one cancellation, ALL interleavings (stateless DFS); pairs that must not share (each key ingredient "
+        "one cancellation, ALL interleavings (stateless DFS); the same with a failing / panicking client writer and "
+        "with a panicking shared work (followers waiting at that moment, identical requests arriving afterwards); "
+        "pairs that must not share (each key ingredient "
         "different, mutation, subscription, de-duplication disabled), all interleavings; seeded random schedules of "
-        "3-4 actors over 1-4 keys with mutations/subscriptions/disabled mixed in and up to two cancellations. "
+        "3-4 actors over 1-4 keys with mutations/subscriptions/disabled mixed in, up to two cancellations, failing "
+        "writers and panics. At quiescence the number of keys still in the single-flight table (read by reflection) "
+        "must be 0 and every actor must have returned. "
         "Three modes: inbound table through a replica of the caller logic, inbound end to end "
         "(Resolver.ArenaResolveGraphQLResponse), subgraph end to end (Loader.loadByContext through the resolver). "
         "A case is distinct by the hash of its line and non-trivial when some actor's LoadOrStore found another "
@@ -22,7 +28,7 @@ CORPUS = os.path.join(vlib.ROOT, "corpus", "C11", "cases.txt")
 
 
 def _final(case):
-    m = re.search(r"\(final (.*)\)\)$", case)
+    m = re.search(r"\(final (.*)\) \(reg \d+\)\)$", case) or re.search(r"\(final (.*)\)\)$", case)
     return m.group(1) if m else ""
 
 
@@ -43,7 +49,7 @@ def classify(case, detail):
     if m and ("canbody" in fin or "errctx" in fin) and re.search(r"\(cancel \d+\)", case):
         i = m.group(3)
         # the failing actor itself was not cancelled and did not execute
-        if re.search(r"\(%s \(.*?\) [tf] f -\)" % i, fin):
+        if re.search(r"\(%s \(.*?\) [tf] f -( [-\w]+)?\)" % i, fin):
             return "inbound-leader-cancel-published"
     return None
 
@@ -59,11 +65,14 @@ def _distribution(cases):
         d["actors"][n] = d["actors"].get(n, 0) + 1
         for a in re.findall(r"\(ans \d+ (\w+)\)", c):
             d["answers"][a] = d["answers"].get(a, 0) + 1
+        for a in re.findall(r"\(wr \d+ (\w+)\)", c):
+            d.setdefault("writes", {})
+            d["writes"][a] = d["writes"].get(a, 0) + 1
         d["cancels"] += len(re.findall(r"\(cancel \d+\)", c))
         d["followers"] += len(re.findall(r"\(at y1\)", c))
-        d["steps"] += len(re.findall(r"\(\((?:start|rel|ans|cancel) ", c))
+        d["steps"] += len(re.findall(r"\(\((?:start|rel|ans|wr|cancel) ", c))
         fin = _final(c)
-        for r in re.findall(r"\(\d+ (none|\((?:wrote|err \w+|panic))", fin):
+        for r in re.findall(r"\(\d+ (none|\((?:wrote|wrerr|crash|err \w+|panic))", fin):
             r = r.strip("(")
             d["results"][r] = d["results"].get(r, 0) + 1
         for kind in ("mutation", "subscription"):
@@ -104,7 +113,16 @@ def run(chk, only_cases=None):
         "Loader.loadByContext; the maxConcurrency semaphore, tracing, response headers/status propagation are left out",
         "harness/cmd/c11: cooperative scheduler (verif yield hook, gated DataSource, goroutine wait-state inspection for "
         "'blocked in select'), per-actor contexts whose Err() names the actor, LoaderHooks.OnFinished as the observation "
-        "point of loadByContext's result; Go's select picks at random when Done and ctx are both ready (either accepted)",
+        "point of loadByContext's result (an 'empty response' SubgraphError with an empty body = loadByContext returned "
+        "neither bytes nor an error); Go's select picks at random when Done and ctx are both ready (either accepted); "
+        "the actors' client writers (park inside Write, fail with an error naming the actor, or panic; they also check that "
+        "the slice they were handed does not change while parked); injected panics carry the actor's id and are recovered "
+        "per actor goroutine; the single-flight tables' sizes are read through reflect/unsafe (no accessor in /repo)",
+        "panics are injected only on the actor's own goroutine (serial fetch / client writer); a panic on a goroutine the "
+        "engine spawned (parallel fetches) kills the process and is outside the property",
+        "subgraph table: a follower of a leader whose load panicked gets res.out = nil, err = nil from loadByContext (the "
+        "deferred Finish releases the item with nothing published); the spec accepts exactly this as 'the shared work "
+        "failed' (the loader reports it as an empty response of the subgraph)",
         "progress is proved as 'some non-cancel action is enabled' (no wedge); 'eventually returns' needs weak fairness of the "
         "scheduler and an upstream that answers; the harness drives every schedule to quiescence and checks everybody returned",
     ]
